@@ -12,7 +12,7 @@ package filehandler
 // the bytes it has read, each once and in order, to the byte channel, which it
 // closes when it returns; it returns only with the error of its last Read, and every
 // earlier error was a tolerated one (end of file or an i/o timeout).
-//@ define tolerated(e) = e == io.EOF || strcontains(errmsg(e), "i/o timeout")
+//@ define tolerated(e) = e == io.EOF || contains(errmsg(e), "i/o timeout")
 
 //@ func New
 //@ ensures result != nil && fresh(result)
